@@ -292,7 +292,9 @@ def gen_secret(rng, plain=False, comma=False):
         alpha += ',,,,,,'        # RFC-valid in userinfo; only expressible where the text is not split on commas
     pre = ''.join(rng.choice(alpha) for _ in range(rng.randint(0, 3)))
     post = ''.join(rng.choice(alpha) for _ in range(rng.randint(0, 4)))
-    if not plain and rng.random() < 0.08:
+    if not plain and rng.random() < 0.06:
+        post = rng.choice(['%404dor', 'a%40b', '%40'])       # a percent-encoded '@' stays encoded: decoding it would put a raw '@' into the userinfo
+    elif not plain and rng.random() < 0.08:
         # two '!' in the password, the part between them spelling a word (an option name), the last part not: the text is cut at
         # the LAST part that does not look like an option, so all of this stays with the URI
         post = rng.choice(['!fps!3x', '!a!0', '!maxfps!9-', '!x1!#', '!loop!-'])
@@ -302,6 +304,8 @@ def gen_user(rng, plain=False, comma=False):
     alpha = UCHARS if not plain else 'abcXYZ019-_.~'
     if comma:
         alpha += ',,,,'
+    if rng.random() < 0.06:
+        return rng.choice(['ops%40plant.example', 'a%40b', 'cam%40site-7'])      # an e-mail address as user name, '@' percent-encoded as it must be
     return ''.join(rng.choice(alpha) for _ in range(rng.randint(1, 6)))
 
 def gen_uri(rng, scheme=None, plain=False, cred=True, empty_user=False, rest=None, host=None, comma=False):
@@ -404,9 +408,17 @@ class My(Filter):
     def process(self, frames):
         return None
 
-CLASSES = dict(My=My, VideoIn=VideoIn, VideoOut=VideoOut, ImageIn=ImageIn, ImageOut=ImageOut, Util=Util,
+class MyFail(Filter):
+    """a user filter whose setup() fails with a long message that names a credentialed URI (a failed ffmpeg command line):
+    whatever Filter.run logs of it, at whatever length, shows no password"""
+    def setup(self, config):
+        raise RuntimeError('ffmpeg %s -f rtsp %s -y: returned non-zero exit status 1' % ('-x' * (int(config.pad) // 2) + ' ' * (int(config.pad) % 2), config.cmd_uri))
+    def process(self, frames):
+        return None
+
+CLASSES = dict(My=My, MyFail=MyFail, VideoIn=VideoIn, VideoOut=VideoOut, ImageIn=ImageIn, ImageOut=ImageOut, Util=Util,
                Recorder=Recorder, MQTTOut=MQTTOut, Webvis=Webvis, REST=REST)
-FULL_RUN = {'My', 'Util', 'VideoIn', 'VideoOut'}      # driven through the real Filter.run (one loop iteration)
+FULL_RUN = {'My', 'MyFail', 'Util', 'VideoIn', 'VideoOut'}      # driven through the real Filter.run (one loop iteration)
 
 def build(spec):
     """JSON-able config spec -> real objects ({'__k': kind, 'items': [[k, v]..]}, {'__t': [..]}, lists, scalars)"""
@@ -472,6 +484,16 @@ def gen_filter_case(rng, i):
         secrets.append(dict(pw=u['pw'], how='base-' + which, key=which, depth=0, uri=u['text'], user=u['user']))
         return dict(cls='My', config={'__k': top_kind, 'items': items}, secrets=secrets,
                     note='base filter %s (init rejects non-mq addresses)' % which)
+    if r < 0.46:                                           # a failing stage whose (long) message names a credentialed URI
+        u = gen_uri(rng, scheme='rtsp', plain=True)
+        items = [['id', 'f%d' % i], ['sources', 'tcp://localhost:5550'], ['outputs', 'tcp://*:5552'],
+                 ['cmd_uri', u['text']], ['pad', 0]]
+        # the URI's userinfo lies across a round position of the message (256, 500, 512, 1000, 1024 characters): a message cut at such a
+        # length before it is masked loses the '@host' the mask needs
+        cut = rng.choice([256, 500, 500, 500, 512, 1000, 1024])
+        items[-1][1] = max(0, cut - len('ffmpeg ') - len(' -f rtsp ') - len('rtsp://') - rng.randint(1, len(u['user']) + len(u['pw']) + 1))
+        secrets.append(dict(pw=u['pw'], how='option', key='cmd_uri', depth=0, uri=u['text'], user=u['user']))
+        return dict(cls='MyFail', config={'__k': top_kind, 'items': items}, secrets=secrets, note='long error message', debug=rng.random() < 0.2)
     if r < 0.50:                                           # error path: normalize_config raises, the raw config is logged
         items = [['id', 'f%d' % i], ['sources', 'tcp://localhost:5550'], ['outputs', 'tcp://*:5552']]
         opt_secret(items)
